@@ -108,6 +108,13 @@ LatLng Gen::randPoint() {
     g.lng = r.uniform(-PI, PI);
     return g;
 }
+static H3Index atDistanceFrom(H3Index p, int d) {
+    std::vector<H3Index> disk = refDisk(p, d), inner = refDisk(p, d - 1);
+    std::set<H3Index> in(inner.begin(), inner.end());
+    for (auto c : disk)
+        if (!in.count(c)) return c;
+    return p;
+}
 LatLng Gen::nearIcosaEdge() {
     if (ICOSA_EDGES.empty()) return randPoint();
     const IcosaEdge &e = ICOSA_EDGES[r.below(ICOSA_EDGES.size())];
@@ -225,6 +232,31 @@ std::vector<Op> Gen::walk(int n) {
     }
     int res = (int)r.below(16);
     H3Index c = r.chance(0.5) ? nearPentagon(res, 3) : randCell(res);
+    if (u >= 0.3 && u < 0.4) {
+        // small disks: a long stretch next to a pentagon (the fast traversal fails there every time), then away from it
+        static const int diskFns[] = {FN_gridDisk, FN_gridDiskDistances, FN_gridDiskUnsafe, FN_gridRingUnsafe, FN_gridDiskDistancesSafe};
+        int fn = diskFns[r.below(5)];
+        int k = (int)r.range(1, 2);
+        H3Index p = pentagon(res);
+        int nearPart = (int)(n * r.uniform(0.5, 0.9));
+        H3Index cur = p;
+        for (int i = 0; i < n; i++) {
+            Op op;
+            op.fn = fn;
+            op.cells = {cur};
+            op.ints = {k};
+            if (fn == FN_gridDiskDistances || fn == FN_gridDiskDistancesSafe) op.ints.push_back(r.chance(0.5) ? 1 : 0);
+            op.tag = i < nearPart ? "walk-disks-at-pentagon" : "walk-disks-away";
+            ops.push_back(op);
+            if (i < nearPart) {
+                std::vector<H3Index> d = refDisk(p, 1);
+                cur = d.empty() ? p : d[r.below(d.size())];
+            } else {
+                cur = i == nearPart ? atDistanceFrom(p, 6 + (int)r.below(4)) : neighborOf(cur);
+            }
+        }
+        return ops;
+    }
     if (u < 0.7) {
         int fn = cellFns[r.below(sizeof cellFns / sizeof cellFns[0])];
         int64_t arg = res;
@@ -945,9 +977,12 @@ Op Gen::polygonOp(int fn, int maxCells) {
         } else if (t < 0.93) {
             cap = cap > 0 ? (int64_t)r.below((uint64_t)cap) : 0;
             op.tag += "+cap-rand";
-        } else {
+        } else if (t < 0.975) {
             cap = 0;
             op.tag += "+cap-zero";
+        } else {
+            cap = r.chance(0.5) ? -1 : -(int64_t)r.range(2, 4000000);  // a negative capacity is an argument like any other
+            op.tag += "+cap-negative";
         }
         op.ints.push_back(cap);
     }
@@ -1134,7 +1169,7 @@ std::vector<H3Index> Gen::cellSet(int maxCells, std::string &tag) {
     if (maxCells >= 12000 ? r.chance(0.01) : r.chance(0.0008)) {
         // very many isolated cells (tens of thousands of components, > 130 000 edges): whatever grows or rehashes "only
         // for big graphs" has to happen here
-        int n = (int)r.range(22000, maxCells >= 12000 ? 40000 : 26000);
+        int n = (int)r.range(22000, maxCells >= 12000 ? 60000 : 26000);
         // (resolutions 5..10 only: from resolution 12 on the library's vertex hash degenerates to a few buckets and
         // a set of this size takes minutes on the unchanged tree)
         int fres = (int)r.range(5, 10);
